@@ -141,3 +141,5 @@ func (w *World) seedStatsTop(ctx sdk.Context) error {
 }
 
 func OpEnv(env string) Op { return Op{Label: "Env(" + env + ")", Env: env} }
+
+func jsonUnmarshal(b []byte, v any) error { return json.Unmarshal(b, v) }
